@@ -12,7 +12,7 @@ import (
 
 func init() {
 	register("C03", core.Spec{
-		Decides: "three clauses of C03 for the C that the working tree's compiler generates for all of std/: (1) 'never allocates or frees' — the object compiled (never executed) from it references no allocator other than calloc/free, and those only from the *__alloc convenience functions, in each build configuration, so no decoder or hasher can reach an allocator on any input; (2) 'a suspension is justified by the buffers' for the suspensions cgen itself emits for I/O built-ins — every `status = short read; goto suspend` sits under a test that the reader is empty (iop == io2) or directly after the reader has been drained, and every `short write` under a test that the writer is full; (3) the pre-condition tables of the unchecked I/O and SIMD built-ins agree with the operations they guard (shared with C01: a too-small pre-condition is an out-of-bounds access in std the moment a decoder uses that built-in); (4) 'no out-of-bounds access' for the chunks of `iterate` loops (std + corpus/lowering): the bodies carry no run-time test, so for every slice length every body copy admitted by a generated round header must have its whole length-byte chunk inside the slice — decided by evaluating the three closed header forms with the generated constants over a full period of lengths — plus lock-step advance and the min-clamp of several iterated slices, the same arithmetic on cgen's own writeIterateRound (polynomials in length/advance/unroll and the guards of the two special forms), and 'bounded work': no break/continue of std targets an iterate loop (cgen would emit a C continue that skips the pointer advance)",
+		Decides:    "three clauses of C03 for the C that the working tree's compiler generates for all of std/: (1) 'never allocates or frees' — the object compiled (never executed) from it references no allocator other than calloc/free, and those only from the *__alloc convenience functions, in each build configuration, so no decoder or hasher can reach an allocator on any input; (2) 'a suspension is justified by the buffers' for the suspensions cgen itself emits for I/O built-ins — every `status = short read; goto suspend` sits under a test that the reader is empty (iop == io2) or directly after the reader has been drained, and every `short write` under a test that the writer is full; (3) the pre-condition tables of the unchecked I/O and SIMD built-ins agree with the operations they guard (shared with C01: a too-small pre-condition is an out-of-bounds access in std the moment a decoder uses that built-in); (4) 'no out-of-bounds access' for the chunks of `iterate` loops (std + corpus/lowering): the bodies carry no run-time test, so for every slice length every body copy admitted by a generated round header must have its whole length-byte chunk inside the slice — decided by evaluating the three closed header forms with the generated constants over a full period of lengths — plus lock-step advance and the min-clamp of several iterated slices, the same arithmetic on cgen's own writeIterateRound (polynomials in length/advance/unroll and the guards of the two special forms), and 'bounded work': no break/continue of std targets an iterate loop (cgen would emit a C continue that skips the pointer advance)",
 		NotDecided: "out-of-bounds or misaligned access other than iterate chunks and the built-in pre-conditions, the arithmetic inside the hand-written helper wuffs_private_impl__iterate_total_advance (its documented meaning is assumed), signed overflow, shift validity, bounded work, suspensions written by hand in std/*.wuffs (`yield? base.\"$short read\"` after a length test — value-level), and absence of 'internal error' statuses: these need sanitizer runs or a verified compiler and are declined",
 		Assumptions: []string{"gcc, nm and readelf report undefined symbols and relocations faithfully; -O0 -ffunction-sections attributes each relocation to one function",
 			"the C statement parser covers cgen's output subset; an unparsable body fails as undecided"},
